@@ -10,8 +10,12 @@ import (
 	realnet "net"
 	"strconv"
 	"strings"
+	"sync"
 	"time"
 )
+
+// mu guards the world's logs: natively the proxy's goroutines write them concurrently.
+var mu sync.Mutex
 
 type Conn = realnet.Conn
 type Addr = realnet.Addr
@@ -235,7 +239,9 @@ func ListenUDP(network string, laddr *UDPAddr) (*UDPConn, error) {
 		laddr = &UDPAddr{}
 	}
 	c := &UDPConn{local: laddr, Inbox: make(chan Datagram, 64)}
+	mu.Lock()
 	UDPConns = append(UDPConns, c)
+	mu.Unlock()
 	return c, nil
 }
 
@@ -255,7 +261,9 @@ func (c *UDPConn) WriteToUDP(b []byte, addr *UDPAddr) (int, error) {
 	if c.WriteFail {
 		return 0, errors.New("network is unreachable")
 	}
+	mu.Lock()
 	Sent = append(Sent, Datagram{Local: c.local.String(), Remote: addr.String(), Payload: append([]byte(nil), b...)})
+	mu.Unlock()
 	return len(b), nil
 }
 func (c *UDPConn) WriteTo(b []byte, addr Addr) (int, error) {
@@ -303,7 +311,9 @@ func NewTCPConn(local, remote string) *TCPConn {
 	lip, lp, _ := resolve(local)
 	rip, rp, _ := resolve(remote)
 	c := &TCPConn{local: &TCPAddr{IP: lip, Port: lp}, remote: &TCPAddr{IP: rip, Port: rp}, inbox: make(chan []byte, 64)}
+	mu.Lock()
 	Conns = append(Conns, c)
+	mu.Unlock()
 	return c
 }
 
@@ -330,7 +340,9 @@ func (c *TCPConn) Write(b []byte) (int, error) {
 	if c.WriteFault != nil && c.WriteFault(c, b) {
 		return 0, errors.New("connection reset by peer")
 	}
+	mu.Lock()
 	c.Written = append(c.Written, append([]byte(nil), b...))
+	mu.Unlock()
 	return len(b), nil
 }
 
@@ -369,11 +381,15 @@ func (c *TCPConn) SetReadDeadline(t time.Time) error  { return nil }
 func (c *TCPConn) SetWriteDeadline(t time.Time) error { return nil }
 
 func Dial(network, address string) (Conn, error) {
+	mu.Lock()
 	Dials[address]++
+	mu.Unlock()
 	return DialHook(network, address)
 }
 func DialTCP(network string, laddr, raddr *TCPAddr) (Conn, error) {
+	mu.Lock()
 	Dials[raddr.String()]++
+	mu.Unlock()
 	return DialHook(network, raddr.String())
 }
 func DialTimeout(network, address string, d time.Duration) (Conn, error) {
@@ -392,7 +408,9 @@ func Listen(network, address string) (Listener, error) {
 		return nil, err
 	}
 	l := &TCPListener{addr: &TCPAddr{IP: ip, Port: p}, queue: make(chan Conn, 16)}
+	mu.Lock()
 	Listeners = append(Listeners, l)
+	mu.Unlock()
 	return l, nil
 }
 func (l *TCPListener) Accept() (Conn, error) {
